@@ -87,6 +87,12 @@ def run(ctx, replay=None):
                         continue        # integer power with an astronomically large exponent: a resource question, not C05
                     e = {'k': 'bin', 'op': op, 'l': c03.var('x'), 'r': c03.var('y')}
                     cases.append(observe_with_real('expr', e, [gv('x', x), gv('y', y)]))
+    # comparisons among the non-number operands too (datetimes of every flavour against each other, containers, strings)
+    for op in ('==', '!=', '<', '>='):
+        for a in ADV_OTHER:
+            for b in ADV_OTHER:
+                e = {'k': 'bin', 'op': op, 'l': c03.var('x'), 'r': c03.var('y')}
+                cases.append(observe_with_real('expr', e, [gv('x', a), gv('y', b)]))
     for a in allv:
         cases.append(observe_with_real('expr', {'k': 'un', 'op': '-', 'e': c03.var('x')}, [gv('x', a)]))
         cases.append(observe_with_real('script', [{'k': 'return', 'hasE': True, 'e': {'k': 'bin', 'op': '+', 'l': gen_jump.s('s'), 'r': c03.var('x')}}], [gv('x', a)]))
